@@ -1,11 +1,96 @@
 /-
-  miscmodel driver part: MapRange (stub until the model lands).
+  miscmodel driver part: map-range folds (C45).
+
+    maprange.port.keys        {"keys":[..]}  (construction order)         -> {"ok":[sorted keys]}
+    maprange.api.router       {"ops":[{"op":"route"|"prefix","p":".."}],"q":[..]}
+                              -> {"ops":[outcome per op],"routes":[module index | "none" per query]}
+    maprange.pfm.initGenesis  {"pre":[[k,id]..],"entries":[[k,id]..]}    -> {"ok":[[k,id]..]} | {"panic":"empty-key"}
+    determinism.replay        {"seed","ops","run1":{"blocks","digest"}}   -> {"ok":"identical","blocks","digest"}
+
+  The folds are evaluated on the list in the order given by the request; the theorems of
+  Props/C45.lean say that any other order gives the same answer, and the implementation (which
+  iterates a real Go map in random order) must agree.
+  `determinism.replay`: a model is a function, so replaying a history reproduces the transcript of
+  the first run; the answer echoes the first run's summary and the harness reports the second run's.
 -/
 import IbcVerif.Util.J
+import IbcVerif.Model.MapRange
 open Lean
 namespace IbcVerif.Driver.MiscMapRange
-open IbcVerif.J
+open IbcVerif.J IbcVerif.MapRange
 
-def handle (_f : String) (_j : Json) : Option (Except String Json) := none
+def strLe (a b : String) : Bool := decide (a ≤ b)
+
+def isAlnum (s : String) : Bool := !s.isEmpty && s.toList.all (fun c => c.isAlphanum)
+
+def pairOf (v : Json) : Except String (String × String) := do
+  let a ← v.getArr?
+  match a.toList with
+  | [k, x] => pure (← k.getStr?, ← x.getStr?)
+  | _ => throw "expected [key, value]"
+
+abbrev R := ApiRouter Char Nat
+
+/-- one wiring call: outcome text and the router afterwards (unchanged on panic) -/
+def routerOp (r : R) (idx : Nat) (op p : String) : Except String (String × R) := do
+  let k := p.toList
+  if !isAlnum p then return ("panic:notalnum", r)
+  match op with
+  | "route" =>
+    if (keys r.routes).contains k then return ("panic:dup", r)
+    match addRouteScan k r.prefixRoutes with
+    | some pfx => return ("panic:matched-by-prefix:" ++ String.ofList pfx, r)
+    | none =>
+      match r.addRoute k idx with
+      | some r' => return ("ok", r')
+      | none => throw "model inconsistency in addRoute"
+  | "prefix" =>
+    if addPrefixScanRoutes k r.routes then return ("panic:prefix-of-route", r)
+    match addPrefixScanPrefixes k r.prefixRoutes with
+    | (.coveredBy (), some pfx) => return ("panic:covered-by:" ++ String.ofList pfx, r)
+    | (.covers (), _) => return ("panic:covers", r)
+    | (.none, _) =>
+      match r.addPrefixRoute k idx with
+      | some r' => return ("ok", r')
+      | none => throw "model inconsistency in addPrefixRoute"
+    | _ => throw "model inconsistency in scan class"
+  | _ => throw s!"unknown router op {op}"
+
+def handle (f : String) (j : Json) : Option (Except String Json) :=
+  match f with
+  | "maprange.port.keys" => some do
+      let ks ← strs j "keys"
+      let sorted := portRouterKeys strLe (ks.map (fun k => (k, ())))
+      pure <| ok (Json.arr (sorted.map Json.str).toArray)
+  | "maprange.api.router" => some do
+      let ops ← arr j "ops"
+      let qs ← strs j "q"
+      let mut r : R := ApiRouter.empty
+      let mut outs : Array Json := #[]
+      let mut idx := 0
+      for o in ops do
+        let (res, r') ← routerOp r idx (← str o "op") (← str o "p")
+        r := r'
+        outs := outs.push (Json.str res)
+        idx := idx + 1
+      let routes := qs.map fun q => match r.getRoute q.toList with
+        | some i => Json.str (toString i)
+        | none => Json.str "none"
+      pure <| Json.mkObj [("ops", Json.arr outs), ("routes", Json.arr routes.toArray)]
+  | "maprange.pfm.initGenesis" => some do
+      let pre ← (← arr j "pre").toList.mapM pairOf
+      let entries ← (← arr j "entries").toList.mapM pairOf
+      let store : KV String String := fun q => pre.lookup q
+      match pfmInitGenesis (fun k : String => k.isEmpty) id store entries with
+      | none => pure <| Json.mkObj [("panic", Json.str "empty-key")]
+      | some s =>
+        let ks := ((pre.map Prod.fst ++ entries.map Prod.fst).mergeSort strLe).eraseDups
+        let dump := ks.filterMap fun k => (s k).map fun v => Json.arr #[Json.str k, Json.str v]
+        pure <| ok (Json.arr dump.toArray)
+  | "determinism.replay" => some do
+      let run1 ← j.getObjVal? "run1"
+      pure <| Json.mkObj [("ok", Json.str "identical"), ("blocks", Json.str (← str run1 "blocks")),
+        ("digest", Json.str (← str run1 "digest"))]
+  | _ => none
 
 end IbcVerif.Driver.MiscMapRange
